@@ -13,12 +13,20 @@ peer.  The two sides decide with the same predicate, and that is what is proved 
   contactable in this node's IP mode emits exactly one FINDNODE request to it - the "non contactable"
   branch is dead for every record `discovered` kept.
 
+* `untrusted_admissible_run` / `untrusted_admissible_from_init`: along every run of the service, every
+  untrusted record of the running lookup - first candidates from the table (C12's policy), later ones from
+  answers - is admissible (the `untr` clause of `Step` in `Proofs/ServicePolicy.lean`, proved for every
+  function of the service);
+* `found_candidate_is_asked`: so in every reachable state a candidate whose record `find_enr` finds is sent
+  its request; the lookup is told "failed" without a request only for a node whose record is found nowhere.
+
 (A change that makes the contact side stricter than the admission side - refusing, say, addresses that
 admission lets in - breaks the second theorem's counterpart in the code; the correspondence run sees it as
 a predicted request that is never sent, and the monitor
 `lookup-short-although-a-node-it-learned-of-was-never-asked` gives the failing history.)
 -/
 import Discv5Model.Proofs.ServiceDiscovered
+import Discv5Model.Props.C12
 
 namespace Discv5.Props.C10Candidates
 
@@ -138,6 +146,105 @@ theorem contactable_candidate_is_asked (s : Svc) (q : Query) (peer : Nat) (r : R
   | some a =>
     simp only [sendRpcRequest]
     exact ⟨_, _, _, rfl⟩
+
+/-! ## Along every run -/
+
+open Discv5.Props.C12 (TablePolicy Wf OracleSane RecOk)
+
+/-- One step keeps "every untrusted record of the running lookup is admissible" (given the table policy
+of C12, from which a lookup takes its first candidates). -/
+theorem untrusted_admissible_step (s : Svc) (o : Oracle) (i : Svc.Input) (hw : Wf s)
+    (hp : TablePolicy s) (hu : UOk s) : UOk (s.step o i).1 := by
+  have hs : Step (RecOk s.cfg.ipMode s.localRec.id) o s (s.step o i).1 :=
+    step_step s i
+      (fun r _ hc hf hne => ⟨hc, hf, rfl, by rw [← hw.2]; exact hne⟩)
+      (fun k v r hv hid _ hc hf => ⟨hc, hf, hid, hv.2.2.2⟩)
+  exact hs.untr (fun _ _ h => ⟨h.1, h.2.1⟩) hp hu
+
+/-- **Every record a lookup is ever asked to contact is admissible.**  Along every run of the service
+(any inputs, any oracle outcomes that re-sign the local record under its own id) from a state with the
+table policy and admissible untrusted records - in particular from a freshly started service - the
+untrusted records of the running lookup are contactable in the node's IP mode and pass the table
+filter.  With `contactable_candidate_is_asked`: whenever `send_rpc_query` finds the record of the
+candidate it is given among them, the request goes out. -/
+theorem untrusted_admissible_run (l : List (Oracle × Svc.Input)) (s : Svc) (hw : Wf s)
+    (ho : ∀ p ∈ l, OracleSane s p.1) (hp : TablePolicy s) (hu : UOk s) :
+    UOk (s.run l).1 := by
+  induction l generalizing s with
+  | nil => exact hu
+  | cons p rest ih =>
+    obtain ⟨o, i⟩ := p
+    have ho1 : OracleSane s o := ho (o, i) (List.mem_cons_self ..)
+    have hid := C12.step_local_id s o i ho1
+    exact ih (s.step o i).1 (C12.wf_step s o i hw ho1)
+      (fun q hq r a hr => by rw [hid]; exact ho q (List.mem_cons_of_mem _ hq) r a hr)
+      (C12.table_policy_inv s o i hw ho1 hp)
+      (untrusted_admissible_step s o i hw hp hu)
+
+theorem untrusted_admissible_from_init (cfg : Svc.Cfg) (r : Rec) (l : List (Oracle × Svc.Input))
+    (ho : ∀ p ∈ l, ∀ r' a, p.1.newLocal = some (r', a) → r'.id = r.id) :
+    UOk ((Svc.init cfg r).run l).1 :=
+  untrusted_admissible_run l (Svc.init cfg r) ⟨init_tinv _ _, rfl⟩ ho (C12.table_policy_init cfg r)
+    (fun q hq => by cases hq)
+
+/-- In a state with admissible untrusted records and the table policy, a candidate whose record
+`find_enr` finds is sent its request - the failure-without-request branch of the lookup glue is taken
+only for a candidate whose record is found nowhere. -/
+theorem found_candidate_is_asked (s : Svc) (q : Query) (peer : Nat) (r : Rec)
+    (hq : s.query = some q) (hp : TablePolicy s) (hu : UOk s)
+    (hf : (s.findEnr peer).2 = some r) :
+    ∃ id a body, (s.sendRpcQuery peer).2 = [.request id r.id a body] := by
+  refine contactable_candidate_is_asked s q peer r hq hf ?_
+  -- the record comes from the table (policy) or from the untrusted records
+  have hs : Step (RecOk s.cfg.ipMode s.localRec.id) ({} : Oracle) s (s.findEnr peer).1 := findEnr_step s peer
+  rw [hs.cfg]
+  have hu1 : UOk (s.findEnr peer).1 := hs.untr (fun _ _ h => ⟨h.1, h.2.1⟩) hp hu
+  have hv1 := hs.vals hp
+  unfold findEnr at hf hu1 hv1
+  have hlk := entry_lookup s peer
+  have hcfg : (s.entry peer).1.cfg = s.cfg := rfl
+  generalize s.entry peer = x at hf hu1 hv1 hlk hcfg
+  obtain ⟨s1, l⟩ := x
+  simp only at hlk hcfg
+  cases l with
+  | present v st =>
+    simp only at hf hv1
+    have : r = v := by simpa using hf.symm
+    subst this
+    exact (hv1.of_hasPair (lookup_present hlk.symm)).1
+  | pending v st =>
+    simp only at hf hu1
+    cases hq1 : s1.query with
+    | none => rw [hq1] at hf; simp at hf
+    | some q1 =>
+      rw [hq1] at hf hu1
+      simp only at hf hu1
+      have hm := List.mem_of_find?_eq_some hf
+      have := hu1 q1 hq1 r hm
+      rw [hcfg] at this
+      exact this.1
+  | absent =>
+    simp only at hf hu1
+    cases hq1 : s1.query with
+    | none => rw [hq1] at hf; simp at hf
+    | some q1 =>
+      rw [hq1] at hf hu1
+      simp only at hf hu1
+      have hm := List.mem_of_find?_eq_some hf
+      have := hu1 q1 hq1 r hm
+      rw [hcfg] at this
+      exact this.1
+  | self =>
+    simp only at hf hu1
+    cases hq1 : s1.query with
+    | none => rw [hq1] at hf; simp at hf
+    | some q1 =>
+      rw [hq1] at hf hu1
+      simp only at hf hu1
+      have hm := List.mem_of_find?_eq_some hf
+      have := hu1 q1 hq1 r hm
+      rw [hcfg] at this
+      exact this.1
 
 /-! ## Non-vacuity -/
 
